@@ -148,6 +148,17 @@ def gen_valid(rng, tier):
                 used.add(d + (nm,))
                 specs.append((d, nm))
                 break
+    # a module nested below the main script's tree: make sure something inside it uses a /-rooted import,
+    # which must resolve against the NESTED root in the source run and in the bundle run alike
+    nested = [r for r in roots if len(r) > len(top)]
+    forced = []
+    if nested and rng.random() < 0.8:
+        nr = nested[0]
+        ia, ib = len(specs), len(specs) + 1
+        if nr + ("na.arrai",) not in used and nr + ("deep", "nb.arrai") not in used:
+            specs.append((nr, "na.arrai"))
+            specs.append((nr + ("deep",), "nb.arrai"))
+            forced = [(0, ia, None), (ia, ib, True), (ib, ia, None)]
     edges = {k: [] for k in range(len(specs))}
     forms_used = set()
 
@@ -182,6 +193,14 @@ def gen_valid(rng, tier):
                 dec = isdata and rng.random() < 0.35
                 edges[i].append({"root": root, "path": "/" + "/".join(s), "dec": dec})
                 forms_used.add(("root" if root else "rel") + ("-data" if isdata else "") + ("-dec" if dec else ""))
+    for i, j, want_root in forced:
+        if i == forced[-1][0] and j == forced[-1][1]:
+            continue      # (placeholder edge kept out: the graph must stay acyclic)
+        fs = [f for f in forms(i, j) if want_root is None or f[0] == want_root]
+        if fs:
+            root, segs = rng.choice(fs)
+            edges[i].append({"root": root, "path": "/" + "/".join(segs + [specs[j][1][:-6]]), "dec": False})
+            forms_used.add("nested-root" if root else "rel")
     if rng.random() < 0.08:
         i = rng.choice([k for k in order if specs[k][1].endswith(".arrai") or k == 0])
         edges[i].append({"root": False, "path": "/missing", "dec": False})
@@ -503,12 +522,12 @@ def main(tier, seed, replay=None):
                 L.files[t]["imps"], L.files[t]["raw"], L.files[t]["text"] = f["imps"], f["raw"], f["text"]
             cases.append({"L": L, "main": tuple(rp["case"]["main"][1:].split("/")), "shape": rp["case"].get("shape", {}), "stream": "replay"})
     else:
-        seeds = [seed] if tier == "quick" else [seed, seed + 1, seed + 2]
+        seeds = [seed] if tier == "quick" else [seed, seed + 1]
         for L, m, sh in corpus_cases():
             cases.append({"L": L, "main": m, "shape": sh, "stream": "corpus"})
         for s in seeds:
             rng = random.Random(s)
-            n = 450 if tier == "quick" else 3000
+            n = 450 if tier == "quick" else 2500
             for _ in range(n):
                 if rng.random() < 0.8:
                     L, m, sh = gen_valid(rng, tier)
